@@ -479,7 +479,16 @@ def gram_deriv_case(draw):
     n = draw(st.integers(2, 12))
     case = {"k": name, "d": d, "n": n, "X": draw(clustered(n, d)), "lazy": draw(st.booleans())}
     if name == "PolyGrad":
-        case.update(power=draw(st.integers(2, 4)), offset=draw(wide(1e-3, 1e2)))
+        case.update(power=draw(st.integers(1, 4)), offset=draw(wide(1e-3, 1e2)))
+        if draw(st.integers(0, 2)) == 0:
+            # engineered like the coincident rows of the stationary kernels: an offset > 0 for which x_i . x_j + offset
+            # vanishes for one pair (lattice inputs: the products are exact)
+            X = case["X"]
+            neg = [-sum(a * b for a, b in zip(X[i], X[j])) for i in range(n) for j in range(i)]
+            neg = sorted({v for v in neg if 1e-3 <= v <= 1e2})
+            if neg:
+                case["offset"] = draw(st.sampled_from(neg))
+                case["zero_base"] = True
     else:
         ard = d >= 2 and draw(st.booleans())
         case.update(ard=ard, lengthscale=draw(kern.arr([1, d if ard else 1], wide(1e-3, 1e3))))
@@ -488,7 +497,7 @@ def gram_deriv_case(draw):
 
 def run_gram_deriv(case, ctx: Ctx):
     name, d = case["k"], case["d"]
-    ctx.cls = name + ("/ard" if case.get("ard") else "")
+    ctx.cls = name + ("/ard" if case.get("ard") else "") + ("/p1" if case.get("power") == 1 else "")
     X = T(case["X"], dtype=F64)
     with ctx.observing("build"):
         if name == "PolyGrad":
@@ -511,7 +520,8 @@ def run_gram_deriv(case, ctx: Ctx):
     dups, near = geometry(X)
     ext = extreme(_flat(case["lengthscale"])) if "lengthscale" in case else False
     judge_gram(ctx, Kd, e, [name], dups + near > 0 or ext, case.get("search", False))
-    ctx.label(f"class={name}", f"dups={min(dups, 3)}", f"near={min(near, 3)}", f"extreme={ext}", f"d={d}")
+    ctx.label(f"class={name}", f"dups={min(dups, 3)}", f"near={min(near, 3)}", f"extreme={ext}", f"d={d}",
+              *([f"polygrad.power={case['power']}", f"polygrad.zero_base={case.get('zero_base', False)}"] if name == "PolyGrad" else []))
 
 
 # ====================================================================================================
@@ -759,7 +769,7 @@ class maybe_block:
 @st.composite
 def variance_case(draw):
     kind = draw(st.sampled_from(["mvn", "mvn", "mtmvn", "exact", "exact", "svgp"]))
-    dtype = draw(st.sampled_from(["float64", "float64", "float32"]))
+    dtype = draw(st.sampled_from(["float64", "float64", "float32"] if kind != "exact" else ["float64", "float32"]))
     block = draw(block_values())
     case = {"kind": kind, "dtype": dtype, "block": block}
     floor = expected_floor(block, dtype, MINVAR_DEFAULT)
@@ -778,17 +788,17 @@ def variance_case(draw):
                     batch=draw(st.sampled_from([[], [], [2]])))
         return case
     if kind == "exact":
-        d = draw(st.integers(1, 2))
-        n = draw(st.integers(2, 8))
-        # lattice inputs (repeated rows allowed) and lengthscales of 1 ... 5: a nearly singular K with tiny noise
+        d = draw(st.sampled_from([1, 1, 2]))
+        n = draw(st.integers(4, 8))
+        # lattice inputs (repeated rows allowed) and lengthscales of 2 ... 6: a nearly singular K with tiny noise
         case.update(d=d, n=n, X=draw(kern.arr([n, d], st.sampled_from([-2.0, -1.5, -1.0, -0.5, 0.0, 0.5, 1.0, 1.5, 2.0]))), y=draw(kern.arr([n], kern.REAL)),
-                    kernel=draw(VM.svgp_kernel(d, [], names=["RBF", "Matern2.5", "Matern1.5", "RQ"], ls=(1.0, 5.0))),
+                    kernel=draw(VM.svgp_kernel(d, [], names=["RBF", "Matern2.5", "Matern1.5", "RQ"], ls=(2.0, 6.0))),
                     # noise 1e-6 at the training points: the raw posterior variance there is ~ noise +- kappa * eps
                     # (measured on the unchanged tree: the Cholesky path keeps these variances positive, the CG path at its default
                     # tolerance returns slightly negative ones in 10-70 % of such cases)
-                    noise=draw(st.sampled_from([1e-6, 1e-6, 1e-8, 1e-10, 1e-5] if dtype == "float64" else [1e-3, 1e-4, 1e-5, 1e-6])),
+                    noise=draw(st.sampled_from([1e-6, 1e-6, 1e-8, 1e-10, 1e-5] if dtype == "float64" else [1e-6, 1e-6, 1e-5, 1e-4, 1e-3])),
                     at=draw(st.lists(st.integers(0, n - 1), min_size=1, max_size=4)), off=draw(st.sampled_from([0.0, 0.0, 1e-9, 1e-6])),
-                    fpv=draw(st.booleans()), max_chol=draw(st.sampled_from([800, 0, 0])), torch_seed=draw(st.integers(0, 2**31 - 1)))
+                    fpv=draw(st.sampled_from([False, False, True])), max_chol=draw(st.sampled_from([0, 0, 0, 800])), torch_seed=draw(st.integers(0, 2**31 - 1)))
         return case
     d = draw(st.integers(1, 2))
     M = draw(st.integers(1, 4))
@@ -898,7 +908,7 @@ NOISE_DEFAULT_LB = 1e-4  # _HomoskedasticNoiseBase: noise_constraint = GreaterTh
 
 @st.composite
 def noise_constraint_case(draw):
-    lik = draw(st.sampled_from(["Gaussian", "Gaussian", "FixedNoise+", "Multitask.noise", "Multitask.task_noises"]))
+    lik = draw(st.sampled_from(["Gaussian", "Gaussian", "FixedNoise+", "Multitask.noise", "Multitask.task_noises", "Heteroskedastic"]))
     con = draw(st.sampled_from(["default", "default", "GreaterThan", "GreaterThan", "GreaterThan/exp", "Positive", "Interval"]))
     dtype = draw(st.sampled_from(["float64", "float64", "float32"]))
     batch = draw(st.sampled_from([[], [], [2]]))
@@ -907,7 +917,7 @@ def noise_constraint_case(draw):
     case = {"lik": lik, "con": con, "dtype": dtype, "batch": batch, "t": t, "lb": lb, "n": draw(st.integers(1, 4))}
     if con == "Interval":
         case["ub"] = lb + draw(st.sampled_from([1e-6, 1e-3, 1.0, 1e3]))
-    k = t if lik == "Multitask.task_noises" else 1
+    k = t if lik == "Multitask.task_noises" else (case["n"] if lik == "Heteroskedastic" else 1)
     if dtype == "float32":
         raws = st.one_of(st.sampled_from([v for v in RAW_SPECIAL if abs(v) < 3e38]), st.floats(width=32, allow_nan=False, allow_infinity=False), st.floats(-50, 50, allow_nan=False, width=32))
     else:
@@ -931,12 +941,48 @@ def _constraint(case):
     return CN.Interval(lb, case["ub"])
 
 
+class _RawNoiseModel(torch.nn.Module):
+    """a 'noise model' whose prediction is a fixed mean: what HeteroskedasticNoise transforms into noise levels"""
+
+    def __init__(self, mean):
+        super().__init__()
+        self.mean = mean
+
+    def forward(self, *x):
+        n = self.mean.shape[-1]
+        return MultivariateNormal(self.mean, torch.eye(n, dtype=self.mean.dtype).expand(*self.mean.shape[:-1], n, n))
+
+
+def run_noise_heteroskedastic(case, ctx: Ctx, dt, raw):
+    from gpytorch.likelihoods.noise_models import HeteroskedasticNoise
+
+    n = case["n"]
+    kw = {} if case["con"] == "default" else {"noise_constraint": _constraint(case)}
+    with ctx.observing("build"):
+        hn = HeteroskedasticNoise(_RawNoiseModel(raw), **kw)
+        if kw:
+            hn._noise_constraint.to(dt)
+    with ctx.observing("noise"):
+        with torch.no_grad():
+            X = torch.zeros(*raw.shape[:-1], n, 1, dtype=dt)
+            noise = hn(X).to_dense().diagonal(dim1=-1, dim2=-2)
+    lb_t = torch.tensor(case["lb"], dtype=dt)
+    ctx.check("noise.not_nan", not bool(torch.isnan(noise).any()), f"noise {noise.reshape(-1)[:4].tolist()} for raw {raw.reshape(-1)[:4].tolist()}")
+    # (a float64 bound applied to float32 predictions is compared in float32)
+    ctx.check("noise.lower_bound", bool((noise.to(dt) >= lb_t).all()), f"noise {noise.reshape(-1)[:4].tolist()} < lower bound {case['lb']:g} for raw {raw.reshape(-1)[:4].tolist()}")
+    sat = bool((noise <= lb_t * (1 + 1e-6) + 1e-300).any())
+    ctx.set_nontrivial(sat or bool((raw.abs() > 30).any()))
+    ctx.label("noise.lik=Heteroskedastic", f"noise.con={case['con']}", f"noise.dtype={case['dtype']}", f"noise.at_bound={sat}")
+
+
 def run_noise_constraint(case, ctx: Ctx):
     dt = DT[case["dtype"]]
     lk, n, t = case["lik"], case["n"], case["t"]
     ctx.cls = f"{lk}|{case['con']}|{case['dtype']}|b{case['batch']}"
     bs = torch.Size(case["batch"])
     raw = T(case["raw"], dtype=dt)
+    if lk == "Heteroskedastic":
+        return run_noise_heteroskedastic(case, ctx, dt, raw)
     kw = {} if case["con"] == "default" else {"noise_constraint": _constraint(case)}
     with ctx.observing("build"):
         if lk == "Gaussian":
@@ -970,8 +1016,6 @@ def run_noise_constraint(case, ctx: Ctx):
     lb_t = torch.tensor(case["lb"], dtype=dt)
     ctx.check("noise.not_nan", not bool(torch.isnan(noise).any()), f"noise {noise.reshape(-1)[:4].tolist()} for raw {raw.reshape(-1)[:4].tolist()}")
     ctx.check("noise.lower_bound", bool((noise >= lb_t).all()), f"noise {noise.reshape(-1)[:4].tolist()} < lower bound {case['lb']:g} for raw {raw.reshape(-1)[:4].tolist()}")
-    if "ub" in case:
-        ctx.check("noise.upper_bound", bool((noise <= torch.tensor(case["ub"], dtype=dt)).all()), f"noise {noise.reshape(-1)[:4].tolist()} > upper bound {case['ub']:g}")
     # the noise the likelihood adds to a distribution: marginal of a zero-covariance latent
     if bool(torch.isfinite(noise).all()):
         from linear_operator import to_linear_operator
